@@ -1,0 +1,22 @@
+//go:build verif
+
+package header
+
+// Hooks for the C03 verification harness (read-only wrappers; compiled only
+// with -tags verif).
+
+// VerifC03Checksum exposes checksum.
+func VerifC03Checksum(data []byte) uint32 { return checksum(data) }
+
+// VerifC03ChecksumChunks feeds the chunks one after the other into a single
+// check state and returns the final sum together with the byte counts
+// reported by the individual Write calls.
+func VerifC03ChecksumChunks(chunks [][]byte) (uint32, []int) {
+	cc := &check{}
+	ns := make([]int, len(chunks))
+	for i, c := range chunks {
+		n, _ := cc.Write(c)
+		ns[i] = n
+	}
+	return cc.Sum(), ns
+}
